@@ -5,6 +5,7 @@ CONSTANT MaxLen <- TrMaxLen
 CONSTANT MaxPend <- Big
 CONSTANT MaxErr <- Big
 CONSTANT MaxSyncs <- Big
+CONSTANT KeepSched = TRUE
 CONSTANT OnlyCompliant = FALSE
 CONSTRAINT Progress
 INVARIANT WholeFramesInOrder NothingPendingWhenClean OkReportsLength NoBytesFromRejected OffsetBounded CallerCompliant
